@@ -27,6 +27,8 @@ BASE_CFG = {
     "reuse_bias": True,
     "shape": "diamond",
     "extend_then_ordered_window_prob": 0.25,
+    "extend_then_partition_window_prob": 0.15,
+    "concat_with_source_prob": 0.15,
     "narrowing_tails": True,
     "shape_prob": 0.65,  # the rest are plain chains, where extend -> ordered window on the fresh column is frequent
 }
@@ -296,7 +298,9 @@ def run(ctx):
             "shape": None,
             "max_nodes": 6,
             "n_tables": (1, 1),
-            "extend_then_ordered_window_prob": 0.5,
+            "extend_then_ordered_window_prob": 0.35,
+            "extend_then_partition_window_prob": 0.35,
+            "concat_with_source_prob": 0.0,
             "ops": {"extend": 10, "window": 5, "ordered_window": 5, "select_rows": 1, "project": 1, "natural_join": 0, "concat_rows": 0, "convert_records": 0, "order_rows": 1, "drop_columns": 0.5, "select_columns": 0.5, "rename_columns": 0.5, "map_columns": 0},
             "min_steps": 3,
             "final_order": 0.1,
